@@ -77,7 +77,7 @@ func (m c04) Run(ctx *core.Ctx) {
 	if ctx.Tier == "thorough" {
 		L = 5
 	}
-	runStateWorkload(ctx, m.Exec, histKinds{setters: true, resolve: true}, tierN(ctx.Tier, 500_000, 30_000_000), tierN(ctx.Tier, 300_000, 20_000_000), L)
+	runStateWorkload(ctx, m.Exec, histKinds{setters: true, resolve: true}, tierN(ctx.Tier, 1_200_000, 30_000_000), tierN(ctx.Tier, 900_000, 20_000_000), L)
 }
 
 // walkStates parses the start and applies the history, calling each(u, where) at every
